@@ -40,6 +40,26 @@ var gvcAPIScenarios = []gvcAPIScenario{
 	{"elision-both-sides", "@@\n@@\n func f() {\n   ...\n-  foo()\n+  bar()\n+  baz()\n   ...\n }\n", "package a\n\nfunc f() {\n\ta()\n\tfoo()\n\tb()\n\tc()\n}\n", true},
 }
 
+// gvcNested: a change 26 `if` blocks deep (a 1 KB file): "promptly" (C08) means well under the 5 s limit
+// of this harness; the time doubled with every level before the comparison results were memoised.
+func gvcNested(depth int) string {
+	var sb strings.Builder
+	sb.WriteString("package a\n\nfunc f() {\n")
+	for i := 0; i < depth; i++ {
+		sb.WriteString(strings.Repeat("\t", i+1) + "if x {\n")
+	}
+	sb.WriteString(strings.Repeat("\t", depth+1) + "foo()\n")
+	for i := depth - 1; i >= 0; i-- {
+		sb.WriteString(strings.Repeat("\t", i+1) + "}\n")
+	}
+	sb.WriteString("}\n")
+	return sb.String()
+}
+
+func init() {
+	gvcAPIScenarios = append(gvcAPIScenarios, gvcAPIScenario{"change-nested-26-blocks-deep", "@@\n@@\n-foo()\n+bar()\n", gvcNested(26), true})
+}
+
 func TestGvcReplay(t *testing.T) {
 	var in struct {
 		Property   string `json:"property"`
